@@ -79,7 +79,34 @@ def run(ctx):
         res.inst("Q-SUB", f"subhypergraph return at line {r.lineno} is dominated by freeze()", ok)
         if not ok:
             res.add(mk_finding(PROP, "Q-SUB", sub, r, "subhypergraph returns a network on which freeze() was not called on every path", role="freeze"))
+    # "no selection" is None, never emptiness: an empty list of nodes/edges selects nothing
+    from .common import pattern_lint
+
+    sel_fns = [f for f in list(gv.functions.values())]
+    pattern_lint(res, PROP, "Q-SUB", sel_fns, truthy_default_sites,
+                 "def _sel(H, nodes=None):\n    return set(H.nodes).intersection(nodes or H.nodes)\n",
+                 lambda nd: f"`{unparse(nd, 60)}` decides by truthiness whether a selection was given; an empty selection (an empty list, or an empty view such as the result of a filter) is then treated as 'everything' instead of 'nothing'",
+                 "optional selections defaulted through truthiness")
     return res
+
+
+def truthy_default_sites(fn_node):
+    """`p or <default>`, `<x> if p else <default>`, `if not p: p = <default>` for a parameter p whose default is None."""
+    a = fn_node.args
+    params = [x.arg for x in a.posonlyargs + a.args + a.kwonlyargs]
+    defaults = [None] * (len(a.posonlyargs + a.args) - len(a.defaults)) + list(a.defaults) + list(a.kw_defaults)
+    none_params = {p for p, d in zip(params, defaults) if isinstance(d, ast.Constant) and d.value is None}
+    for n in ast.walk(fn_node):
+        if isinstance(n, ast.BoolOp) and isinstance(n.op, ast.Or) and isinstance(n.values[0], ast.Name) and n.values[0].id in none_params:
+            yield n
+        if isinstance(n, ast.IfExp):
+            t = n.test.operand if isinstance(n.test, ast.UnaryOp) and isinstance(n.test.op, ast.Not) else n.test
+            if isinstance(t, ast.Name) and t.id in none_params:
+                yield n
+        if isinstance(n, ast.If):
+            t = n.test.operand if isinstance(n.test, ast.UnaryOp) and isinstance(n.test.op, ast.Not) else n.test
+            if isinstance(t, ast.Name) and t.id in none_params and any(isinstance(b, ast.Assign) and any(isinstance(x, ast.Name) and x.id == t.id for x in b.targets) for b in n.body + n.orelse):
+                yield n
 
 
 def check_cleanup(repo, res, m, cname):
